@@ -257,6 +257,9 @@ def _expand(call: ast.Call, ctx_stmt: ast.stmt, helper, hkind: str, caller) -> O
         else:
             subst[p] = v
     assigned_here = {t.id for t in getattr(ctx_stmt, "targets", []) if isinstance(t, ast.Name)} if isinstance(ctx_stmt, ast.Assign) else set()
+    if isinstance(ctx_stmt, ast.Assign) and len(ctx_stmt.targets) == 1 and isinstance(ctx_stmt.targets[0], ast.Tuple):
+        # a, b = helper(...): the helper's own locals a, b are overwritten by the call's result anyway
+        assigned_here |= {t.id for t in ctx_stmt.targets[0].elts if isinstance(t, ast.Name)}
     arg_reads = {x.id for v in bind.values() for x in ast.walk(v) if isinstance(x, ast.Name)}
     for loc in stored - set(bind):
         if loc in caller_names and not (loc in assigned_here and loc not in arg_reads):
@@ -275,7 +278,8 @@ def _expand(call: ast.Call, ctx_stmt: ast.stmt, helper, hkind: str, caller) -> O
                 names = [t.id for t in tg.elts]
                 safe = all(not ({x.id for x in ast.walk(v) if isinstance(x, ast.Name)} & set(names[:i])) for i, v in enumerate(e.elts))
                 if safe:
-                    return [ast.Assign(targets=[copy.deepcopy(t)], value=v) for t, v in zip(tg.elts, e.elts)]
+                    return [ast.Assign(targets=[copy.deepcopy(t)], value=v) for t, v in zip(tg.elts, e.elts) if not (isinstance(v, ast.Name) and v.id == t.id)] \
+                        or [ast.Pass()]
             return [ast.Assign(targets=copy.deepcopy(ctx_stmt.targets), value=e if e is not None else none)]
     elif isinstance(ctx_stmt, ast.AnnAssign):
         def make(e):
